@@ -63,6 +63,13 @@ RangeLoops == [
   endcall   |-> <<SDecl(EVar(Nn), EInt(3)), SFn(Fn(1), <<>>, FALSE, <<P(77), SReturn(EVar(Nn))>>),
                   SFor(EVar(It(1)), ERange(EInt(0), ECall(EVar(Fn(1)), <<>>)),
                        <<SOpAssign(EVar(Nn), "-", EInt(1)), SPrint(EVar(It(1)))>>)>>,
+  startlit  |-> <<SFor(EVar(It(1)), ERange(EInt(2), EInt(5)), <<SPrint(EVar(It(1)))>>),
+                  SFor(EPat(<<EVar(Nn), EVar(It(2))>>), ERange(EInt(-2), EInt(1)), <<SPrint(EBin("-", EVar(It(2)), EVar(Nn)))>>),
+                  SDecl(EVar(Xs), ERange(EInt(3), EInt(6))),
+                  SFor(EVar(It(1)), EVar(Xs), <<SPrint(EVar(It(1)))>>),
+                  SFor(EVar(It(1)), ERIndex(ERange(EInt(3), EInt(9)), EInt(2), EInt(4)), <<SPrint(EVar(It(1)))>>),
+                  SFor(EVar(It(1)), EStr(<<195, 169, 97>>), <<SPrint(EIndex(EVar(It(1)), EInt(0)))>>),
+                  SFor(EVar(It(1)), EBin("+", EList(<<EInt(7)>>), ERange(EInt(4), EInt(6))), <<SPrint(EVar(It(1)))>>)>>,
   listvar   |-> <<SDecl(EVar(Xs), EList(<<EInt(1), EInt(2)>>)),
                   SFor(EVar(It(1)), EVar(Xs), <<SAssign(EVar(Xs), EBin("+", EVar(Xs), EList(<<EInt(9)>>))), SPrint(EVar(It(1)))>>),
                   SPrint(EVar(Xs))>>,
